@@ -384,8 +384,8 @@ class Listing:
         # which editions are parsed for real: all when there is no memo (rng None); otherwise those whose scanned
         # block / times / partial flag changed since they were last parsed, plus (seeded sample) the last and a random one
         force = set()
-        if rng is None and only == 'ends':          # the first and the last stored edition
-            force = set(obs['keys'][:1] + obs['keys'][-1:])
+        if rng is None and only == 'last':          # the last stored edition
+            force = set(obs['keys'][-1:])
         elif rng is None:
             force = set(only) if only is not None else set(obs['keys'])
         elif obs['keys'] and rng.random() < rate:
@@ -430,8 +430,9 @@ class Listing:
                 self.ref[n] = pres.res if status == 'ok' else None
         return self.ref[n]
 
-    def complete_obs(self, rng=None):
-        """observation of the complete listing (all editions parsed when there are few, else the first and last two)."""
+    def complete_obs(self, rng=None, last=False):
+        """observation of the complete listing (all editions parsed when there are few, else the first and last two;
+        rng: the last and a random one; last: the last one)."""
         saved, self.memo = self.memo, {}
         only = None
         if self.full_parser is None:
@@ -441,6 +442,8 @@ class Listing:
             only = nums if len(nums) <= 12 else nums[:2] + nums[-2:]
             if rng is not None:
                 only = [nums[-1], rng.choice(nums)]
+            if last:
+                only = nums[-1:]
         obs = self.observe(self.path, len(self.data), ref=self.ref_edition, only=only)
         self.memo = saved
         return obs
@@ -933,7 +936,7 @@ def _integ(e, k=1.0, disc=True, title='\t ENERGY INTEGRATED RESULTS\n\n'):
             + 'number of batches used: %d\t%s\t%s\n\n\n' % (10 * e, _f(4.5 * k * e), _f(0.5 / e)))
 
 
-def _spectrum(e, k=1.0, groups=2):
+def _spectrum(e, k=1.0, groups=1):
     rows = [(20., 15., 0., 0., 0.), (15., 10., 2.5 * k * e, 1. / e, 6.165759 * k * e),
             (10., 5., 1.5 * k * e, 2. / e, 2.164043 * k * e), (5., 1e-11, .5 * k * e, 3. / e, 0.018658 * k * e)][-groups:]
     return ('\t SPECTRUM RESULTS\n\t number of first discarded batches : 0\n\n'
@@ -1234,7 +1237,7 @@ def _prime(name=None):
         name = names[_PRIME_NEXT[0] % len(names)]
         _PRIME_NEXT[0] += 1
     lst = _listing(name)
-    obs = lst.complete_obs()            # (its `after`: the history before this parse)
+    obs = lst.complete_obs(last=True)           # (its `after`: the history before this parse)
     if name in _HISTORY:
         _HISTORY.remove(name)
     _HISTORY.append(name)
@@ -1276,7 +1279,7 @@ def _work_offsets(task):
         fnd, n = _prime(name)
         if fnd and len(primed) < 20:
             primed.append(fnd)
-        return n + note(lst.observe(tmp, off, rng=None, ref=lst.ref_edition, only='ends'))
+        return n + note(lst.observe(tmp, off, rng=None, ref=lst.ref_edition, only='last'))
     with open(tmp, 'wb') as f:
         written = 0
         if prime and want_ref and len(lst.data) > 1:
@@ -1318,7 +1321,7 @@ def _work_states(task):
         exp = expectation(final_st, final_out)
         suffix = layout_suffix(lines)
         for count, (pos, cut, st, alt, out) in enumerate(states):
-            if count % 25 == 0:             # a grammar-written listing (each in turn) parsed complete in between
+            if count == 0:                  # a grammar-written listing (each in turn) parsed complete in between
                 fnd, n = _prime()
                 res['nparse'] += n
                 if fnd and len(res['findings']) < 50:
@@ -1617,7 +1620,7 @@ def run_c11(ctx):
             nchunk = max(1, min(NPROC * 2, len(offs) // 1500 + 1))
             step = (len(offs) + nchunk - 1) // nchunk
             for k in range(0, len(offs), step):
-                jobs.append((rel, offs[k:k + step], ctx.seed * 1000003 + k, rate, 400, k == 0, 100))
+                jobs.append((rel, offs[k:k + step], ctx.seed * 1000003 + k, rate, 400, k == 0, 200))
         jobs.sort(key=lambda j: -len(j[1]) * (1 + sizes[j[0]] // 20000))
         file_results = pool.map(_work_offsets, jobs, chunksize=1)
     _t('offsets of real listings parsed')
